@@ -279,6 +279,38 @@ theorem T_C07_face_calls (pos : Nat → V3) (f : Face Nat Datum) (h : Face4 f) (
     (∀ x ∈ dconn f, x ∈ dconn (applyFaceOps pos f ops) ∨ flipC x ∈ dconn (applyFaceOps pos f ops)) :=
   (sameCurves_applyOps pos h ops).2
 
+theorem removeEdges_some_getD (cs : List Nat) (es : List Datum) (i : Nat) :
+    (removeEdges (some cs) es).getD i lineDatum =
+      if i ∈ cs then lineDatum else es.getD i lineDatum := by
+  unfold removeEdges
+  simp only [Option.getD_some]
+  induction cs generalizing es with
+  | nil => simp
+  | cons c cs ih =>
+    simp only [List.foldl_cons, ih, List.mem_cons]
+    by_cases h1 : i ∈ cs
+    · simp [h1]
+    · simp only [h1, if_false, or_false]
+      by_cases h2 : i = c
+      · subst h2
+        simp only [if_true, List.getD_eq_getElem?_getD, List.getElem?_set]
+        split <;> simp
+      · simp only [h2, if_false, List.getD_eq_getElem?_getD, List.getElem?_set]
+        have : ¬ c = i := fun h => h2 h.symm
+        simp [this]
+
+/-- **`Face.remove_edges`**: exactly the edges at the listed corners become lines and every other
+    datum stays where it is; in particular an explicitly given *empty* list removes nothing, while no
+    argument / `None` removes all four -/
+theorem T_C07_remove_edges (cs : List Nat) (es : List Datum) :
+    (∀ i, i ∉ cs → (removeEdges (some cs) es).getD i lineDatum = es.getD i lineDatum) ∧
+    (∀ i, i ∈ cs → (removeEdges (some cs) es).getD i lineDatum = lineDatum) ∧
+    removeEdges (some []) es = es ∧
+    (∀ e0 e1 e2 e3, removeEdges none [e0, e1, e2, e3] = [lineDatum, lineDatum, lineDatum, lineDatum]) := by
+  refine ⟨?_, ?_, rfl, fun _ _ _ _ => rfl⟩
+  · intro i hi; rw [removeEdges_some_getD]; simp [hi]
+  · intro i hi; rw [removeEdges_some_getD]; simp [hi]
+
 /-- reversing twice gives the datum back; data that do not depend on direction never change -/
 theorem T_C07_reverse (d : Datum) :
     d.reverse.reverse = d ∧ d.reverse.kind = d.kind ∧ d.reverse.tag = d.tag ∧
